@@ -1,8 +1,11 @@
 package rules
 
 import (
+	"fmt"
 	"go/ast"
+	"go/printer"
 	"go/token"
+	"strings"
 
 	"verif/checker/internal/core"
 	"verif/checker/internal/gen"
@@ -109,6 +112,42 @@ func c17GenFuncs(l *core.Ledger, g *gen.Generator) {
 		})
 		l.Check(!strips, "C17-B9", "gengorums.outType/package-qualifier", fd.Pos(), "wrapper type names keep same-named types of different packages apart", "the promise/correctable wrapper type of a method is named prefix + the bare name of its (custom) return type (outType strips the package qualifier), and the wrapper types are generated once per such name: two methods whose return types have the same name in different Go packages (a local message Empty and google.protobuf.Empty) share one AsyncEmpty / CorrectableEmpty, made for one of them; for the other the typed Get asserts the wrong type - nil for ever (correctable) or a panic (async)")
 	}
+	// ---- B10: field() only strips the qualifier. The names derived through it (wrapper
+	// types, embedded fields, the internal reply type) are then distinct for distinct Go
+	// type names of one package; a function that also rewrites the name (drops or replaces
+	// characters, changes case) maps two messages to one derived name
+	if fd := g.FuncDecl("field"); fd != nil && fd.Body != nil {
+		allowed := map[string]bool{"LastIndex": true, "Index": true, "LastIndexByte": true, "IndexByte": true, "Cut": true, "HasPrefix": true, "Contains": true, "ContainsRune": true, "IndexRune": true, "Split": true, "SplitN": true, "SplitAfter": true, "TrimPrefix": true}
+		var rewrites []string
+		ast.Inspect(fd.Body, func(n ast.Node) bool {
+			ce, ok := n.(*ast.CallExpr)
+			if !ok {
+				return true
+			}
+			f := resolvedCall(info, ce)
+			if f == nil {
+				if id, ok := ce.Fun.(*ast.Ident); ok && (id.Name == "len" || id.Name == "string") {
+					return true
+				}
+				rewrites = append(rewrites, exprText(ce.Fun))
+				return true
+			}
+			if f.Pkg() != nil && f.Pkg().Path() == "strings" && allowed[f.Name()] {
+				return true
+			}
+			rewrites = append(rewrites, f.FullName())
+			return true
+		})
+		l.Check(len(rewrites) == 0, "C17-B10", "gengorums.field/strips-qualifier-only", fd.Pos(), "field() selects a part of the type name and does not rewrite it", fmt.Sprintf("field() rewrites the type name (%v): two messages of one package whose Go names differ only in what is rewritten (Outer_Inner and OuterInner) get one wrapper type name, one internal reply type and one embedded field - the generated file declares them twice, or the later method is bound to the earlier one's types", rewrites))
+	} else {
+		l.Unknown("C17-B10", "anchor/field", token.NoPos, "template function field not found")
+	}
+}
+
+func exprText(e ast.Expr) string {
+	var b strings.Builder
+	_ = printer.Fprint(&b, token.NewFileSet(), e)
+	return b.String()
 }
 
 // c16Y10: names the guard does not look at.
